@@ -435,7 +435,7 @@ func (i *Interp) rangeIter(x value) iter {
 // ---------------------------------------------------------------------
 // builtins
 
-func (i *Interp) appendVals(dst []value, src []value) []value {
+func (i *Interp) appendVals(dst []value, src []value, elemT types.Type) []value {
 	if len(src) == 0 {
 		return dst
 	}
@@ -459,6 +459,21 @@ func (i *Interp) appendVals(dst []value, src []value) []value {
 	for _, e := range src {
 		n = append(n, copyVal(e))
 	}
+	// spare capacity holds zero values of the element type, as in Go
+	if elemT != nil {
+		full := n[:ncap]
+		z := zero(elemT)
+		switch z.(type) {
+		case structure, array:
+			for k := len(n); k < ncap; k++ {
+				full[k] = zero(elemT)
+			}
+		default:
+			for k := len(n); k < ncap; k++ {
+				full[k] = z
+			}
+		}
+	}
 	return n
 }
 
@@ -468,10 +483,14 @@ func (i *Interp) callBuiltin(caller *frame, fn *ssa.Builtin, args []value) value
 		if len(args) == 1 {
 			return args[0]
 		}
-		if isStringy(args[1]) {
-			return i.appendVals(args[0].([]value), strBytes(args[1]))
+		var et types.Type
+		if st, ok := fn.Type().(*types.Signature).Params().At(0).Type().Underlying().(*types.Slice); ok {
+			et = st.Elem()
 		}
-		return i.appendVals(args[0].([]value), args[1].([]value))
+		if isStringy(args[1]) {
+			return i.appendVals(args[0].([]value), strBytes(args[1]), et)
+		}
+		return i.appendVals(args[0].([]value), args[1].([]value), et)
 
 	case "copy":
 		dst := args[0].([]value)
